@@ -10,7 +10,7 @@
 (* is  Header.pre[a, n] \o line ; its expectation is `expect`.             *)
 (*   C31.cfg     exhaustive: all well-typed trees of depth <= D            *)
 (*               (environment: C31_TY = int|bool|str|all  type of the root,*)
-(*                C31_FORMS = all|uniform  leaf-form combinations,         *)
+(*                C31_FORMS = all|uniform|uniform3|quickmix  leaf forms,   *)
 (*                C31_A = assignment number, 0 = 1..C31_NA)                *)
 (*   C31Sim.cfg  tlc -simulate: M random trees of depth <= DS per behaviour*)
 (***************************************************************************)
@@ -60,7 +60,10 @@ Item(t, a, n) ==
 VARIABLES t, a
 TySet == IF TySel = "all" THEN Types ELSE {TySel}
 \* (operators with a parameter: TLC evaluates parameterless constant definitions at startup, also when unused)
-Raw(d) == UNION {IF FormSel = "uniform" THEN UniformTreesOf(ty, d) ELSE TreesOf(ty, d) : ty \in TySet}
+\* "quickmix": int-typed trees with every leaf-form combination, the other types with uniform3
+Raw(d) == UNION {IF FormSel = "uniform" THEN UniformTreesOf(ty, d)
+                 ELSE IF FormSel = "uniform3" \/ (FormSel = "quickmix" /\ ty # "int") THEN Uniform3TreesOf(ty, d)
+                 ELSE TreesOf(ty, d) : ty \in TySet}
 NormSet(d) == {Norm(Number(x, 1).t) : x \in Raw(d)}
 Init == t \in NormSet(D) /\ a \in (IF ASel = 0 THEN 1..NA ELSE {ASel})
 Next == UNCHANGED <<t, a>>
